@@ -385,11 +385,18 @@ def _replay_multi(scn, tmp, codec, profile):
         ds = A.Dataset()
         ds["a"] = N.gamma(a, codec)
         ds["n"] = N.gamma(dict(a, dtype="i"), codec)
+        if c.get("rekey") == "dropx-names":
+            ds["yonly"] = ds["a"].ix[0] * (k + 2)        # a variable without x
         ds.write_nc(fn)
         fns.append(fn)
     kw = dict(align=c["align"], sort=c["sort"])
     keys = [10, 20, 30][:c["nf"]] if c["keys"] else None
-    if c.get("rekey"):
+    dropx = c.get("rekey", "").startswith("dropx")
+    rkw = {}
+    if dropx:
+        keys = [10, 20, 30][:c["nf"]]
+        rkw = dict(indices={"x": codec.enc(2, "i")}) if c["rekey"] == "dropx-index" else dict(names=["yonly"])
+    if c.get("rekey") and not dropx:
         allx = [codec.enc(h, "i") for k in range(c["nf"]) for h in xs[k]]
         keys = {"sorted": sorted(allx), "reversed": sorted(allx, reverse=True), "subset": sorted(allx)[1:-1][::-1],
                 "extra": sorted(allx) + [codec.enc(99, "i")]}[c["rekey"]]
@@ -398,7 +405,10 @@ def _replay_multi(scn, tmp, codec, profile):
     given = list(fns)
     try:
         axis = "k" if c["axis"] == "new" else c["axis"]
-        res = A.da.read_nc(fns, axis=axis, keys=keys, **kw) if keys else A.da.read_nc(fns, axis=axis, **kw)
+        if dropx:
+            res = A.da.read_nc(fns, axis=axis, keys=keys, **rkw)
+        else:
+            res = A.da.read_nc(fns, axis=axis, keys=keys, **kw) if keys else A.da.read_nc(fns, axis=axis, **kw)
     except Exception as e:  # noqa
         err = e
     if fns != given:
@@ -414,13 +424,15 @@ def _replay_multi(scn, tmp, codec, profile):
     elif err is not None:
         what, kind = "raised %s: %s" % (type(err).__name__, str(err)[:200]), "raised:" + type(err).__name__
     else:
-        singles = [A.da.read_nc(f) for f in fns]
+        singles = [A.da.read_nc(f, **rkw) for f in fns]
         try:
-            if c["axis"] == "new":
+            if dropx:
+                ref = A.da.stack_ds(singles, axis="x", keys=keys)
+            elif c["axis"] == "new":
                 ref = A.da.stack_ds(singles, axis="k", keys=keys if keys else [os.path.splitext(f)[0] for f in fns], **kw)
             else:
                 ref = A.da.concatenate_ds(singles, axis=c["axis"], **kw)
-                if c.get("rekey"):
+                if c.get("rekey") and not dropx:
                     ref = ref.reindex_axis(keys, axis=c["axis"])
             from .c14 import _same
             if list(res.keys()) != list(ref.keys()):
